@@ -769,6 +769,11 @@ func (c *Conn) writeFrame(fr *FrameHeader) error {
 }
 
 func (c *Conn) finish(r *Ctx, stream uint32, err error) {
+	c.finishHeld(r, stream, err, false)
+}
+
+// finishHeld is finish for a caller that may already hold r.
+func (c *Conn) finishHeld(r *Ctx, stream uint32, err error, held bool) {
 	// Drop the stream before resolving: once RoundTrip returns it may hand the
 	// Ctx back to a pool, and it can only do that when nothing here still
 	// refers to it.
@@ -776,7 +781,7 @@ func (c *Conn) finish(r *Ctx, stream uint32, err error) {
 		atomic.AddInt32(&c.openStreams, -1)
 	}
 
-	c.deletePending(stream)
+	c.dropPending(stream, held)
 
 	verifPoint("cli.finish")
 	r.markFinished()
@@ -943,10 +948,10 @@ func (c *Conn) dispatch(fr *FrameHeader) bool {
 
 	if err == nil {
 		if endStream {
-			c.finish(r, fr.Stream(), nil)
+			c.finishHeld(r, fr.Stream(), nil, true)
 		}
 	} else {
-		c.finish(r, fr.Stream(), err)
+		c.finishHeld(r, fr.Stream(), err, true)
 	}
 
 	// A header block that does not decode leaves the HPACK table in an unknown
@@ -1268,6 +1273,14 @@ func (c *Conn) signalWindow() {
 }
 
 func (c *Conn) deletePending(id uint32) {
+	c.dropPending(id, false)
+}
+
+// dropPending forgets what is left of a request body. held says that the caller
+// already holds the request's Ctx: the read loop does when a response ends, and
+// taking a lock it holds left it waiting for itself whenever the response ended
+// before a streamed body had been sent.
+func (c *Conn) dropPending(id uint32, held bool) {
 	c.sendLck.Lock()
 	pb := c.pending[id]
 	delete(c.pending, id)
@@ -1280,11 +1293,13 @@ func (c *Conn) deletePending(id uint32) {
 
 	// Taking the Ctx is what makes this safe: a request that has already been
 	// handed back to its caller is theirs to close, and releasing it does.
-	if !pb.ctx.acquireFor(c, id) {
-		return
-	}
+	if !held {
+		if !pb.ctx.acquireFor(c, id) {
+			return
+		}
 
-	defer pb.ctx.release()
+		defer pb.ctx.release()
+	}
 
 	c.closeBodyStream(pb)
 }
